@@ -10,10 +10,14 @@ import (
 	"io"
 
 	"github.com/kubewharf/kubebrain/pkg/storage"
+	badgerkv "github.com/kubewharf/kubebrain/pkg/storage/badger"
 	"github.com/kubewharf/kubebrain/pkg/storage/memkv"
 	smetrics "github.com/kubewharf/kubebrain/pkg/storage/metrics"
+	tikvkv "github.com/kubewharf/kubebrain/pkg/storage/tikv"
 	"github.com/kubewharf/kubebrain/pkg/zzmodel"
 	"github.com/kubewharf/kubebrain/pkg/zzverif"
+	"github.com/tikv/client-go/v2/testutils"
+	"github.com/tikv/client-go/v2/tikv"
 )
 
 var ctx = context.Background()
@@ -84,16 +88,17 @@ func step(impl, ref storage.KvStorage) {
 		for j := 0; j < m; j++ {
 			tag := "b" + string(rune('0'+j))
 			k, v, old := key(tag), zzverif.Bytes(tag+".v", 1), zzverif.Bytes(tag+".old", 1)
+			ttl := int64(zzverif.Choose(tag+".ttl", 2)) * 3600 // written with or without a TTL (never reached here)
 			switch zzverif.Choose(tag+".kind", 4) {
 			case 0:
-				ib.PutIfNotExist(k, v, 0)
-				rb.PutIfNotExist(k, v, 0)
+				ib.PutIfNotExist(k, v, ttl)
+				rb.PutIfNotExist(k, v, ttl)
 			case 1:
-				ib.CAS(k, v, old, 0)
-				rb.CAS(k, v, old, 0)
+				ib.CAS(k, v, old, ttl)
+				rb.CAS(k, v, old, ttl)
 			case 2:
-				ib.Put(k, v, 0)
-				rb.Put(k, v, 0)
+				ib.Put(k, v, ttl)
+				rb.Put(k, v, ttl)
 			default:
 				ib.Del(k)
 				rb.Del(k)
@@ -163,6 +168,9 @@ func step(impl, ref storage.KvStorage) {
 		if zzverif.Choose("touch", 2) == 1 {
 			// the entry changes between the iterator's snapshot and the delete
 			v := zzverif.Bytes("touchv", 1)
+			// the contract allows delete-if-value-equal or delete-if-version-equal: a rewrite with the
+			// identical value may or may not count as a change, so the harness makes a real change
+			zzverif.Assume(!zzverif.BytesEq(v, ri.Val()))
 			for _, s := range []storage.KvStorage{impl, ref} {
 				b := s.BeginBatchWrite()
 				b.Put(ri.Key(), v, 0)
@@ -184,3 +192,37 @@ func VerifC11Memkv() { step(memkv.NewKvStorage(), zzmodel.NewStore()) }
 func VerifC11MemkvMetrics() {
 	step(smetrics.NewKvStorage(memkv.NewKvStorage(), zzmodel.NoMetrics{}), zzmodel.NewStore())
 }
+
+// VerifC11Badger: the Badger adapter against the contract.
+func VerifC11Badger() {
+	s, err := badgerkv.NewKvStorage(badgerkv.Config{Dir: zzverif.TempDir()})
+	zzverif.Assert(err == nil, "badger opens")
+	defer s.Close()
+	step(s, zzmodel.NewStore())
+}
+
+// VerifC11BadgerMetrics: the metrics wrapper around the Badger adapter against the contract.
+func VerifC11BadgerMetrics() {
+	s, err := badgerkv.NewKvStorage(badgerkv.Config{Dir: zzverif.TempDir()})
+	zzverif.Assert(err == nil, "badger opens")
+	defer s.Close()
+	step(smetrics.NewKvStorage(s, zzmodel.NoMetrics{}), zzmodel.NewStore())
+}
+
+// NewMockTiKV builds the TiKV adapter over client-go's mock cluster (natively) / over gosym's
+// model of the client (symbolically).
+func NewMockTiKV() storage.KvStorage {
+	rpcClient, cluster, pdClient, err := testutils.NewMockTiKV("", nil)
+	zzverif.Assert(err == nil, "mock tikv starts")
+	if !zzverif.Symbolic() {
+		// a function variable of the third-party test utilities (their package initialisers are not
+		// executed symbolically; the client model needs no bootstrap)
+		testutils.BootstrapWithMultiRegions(cluster)
+	}
+	st, err := tikv.NewTestTiKVStore(rpcClient, pdClient, nil, nil, 0)
+	zzverif.Assert(err == nil, "mock tikv store")
+	return tikvkv.NewKvStoreWithStorage([]*tikv.KVStore{st})
+}
+
+// VerifC11TiKV: the TiKV adapter against the contract.
+func VerifC11TiKV() { step(NewMockTiKV(), zzmodel.NewStore()) }
